@@ -596,6 +596,7 @@ type Options struct {
 	PrintSep          string
 	Sync              bool
 	History           *History
+	historyMax        int
 	Header            []string
 	HeaderLines       int
 	HeaderFirst       bool
@@ -2176,10 +2177,13 @@ func optString(arg string, prefix string) (bool, string) {
 func parseOptions(index *int, opts *Options, allArgs []string) error {
 	var err error
 	var historyMax int
-	if opts.History == nil {
-		historyMax = defaultHistoryMax
-	} else {
+	if opts.History != nil {
 		historyMax = opts.History.maxSize
+	} else if opts.historyMax > 0 {
+		// --history-size from a previous source (options file, $FZF_DEFAULT_OPTS)
+		historyMax = opts.historyMax
+	} else {
+		historyMax = defaultHistoryMax
 	}
 	setHistory := func(path string) error {
 		h, e := NewHistory(path, historyMax)
@@ -2194,6 +2198,7 @@ func parseOptions(index *int, opts *Options, allArgs []string) error {
 		if historyMax < 1 {
 			return errors.New("history max must be a positive integer")
 		}
+		opts.historyMax = historyMax
 		if opts.History != nil {
 			opts.History.maxSize = historyMax
 		}
